@@ -2,7 +2,10 @@
 
 package simrt
 
-import "runtime"
+import (
+	"runtime"
+	"unsafe"
+)
 
 // Without the race detector there is nothing to hide from, so the token is
 // handed over through one-slot channels (O(1) instead of polling).  The
@@ -45,3 +48,6 @@ func (s *Sim) park(t *Task) {
 	}
 	s.cur = t
 }
+
+func raceRead(unsafe.Pointer)  {}
+func raceWrite(unsafe.Pointer) {}
